@@ -1,6 +1,8 @@
 """C14 driver: trace-recording builds of the simulator (RUSTC_WRAPPER adds SanitizerCoverage
 edge + load/store callbacks), one per optimisation level."""
+import json
 import os
+import sys
 import time
 
 # (cargo profile, flavour name, single parameter set or None = all three)
@@ -21,7 +23,142 @@ def build(chk, profile, only=None):
 def setup(chk):
     b, _ = build(chk, "release")
     b2, _ = build(chk, "release", "ml-dsa-44")
-    return b is not None and b2 is not None
+    b3, _ = chk.cargo_build("ctm", "release")
+    return b is not None and b2 is not None and b3 is not None
+
+
+MACHINE = {"quick": [("release", "machine-Os")], "thorough": [("release", "machine-Os"), ("o3", "machine-O3")]}
+SETS = ["44", "65", "87"]
+
+
+def lackey(chk, binp, setname, draw, dump=None):
+    """Run the constant-time test entry point once under valgrind's instruction/memory tracer; returns
+    (events, md5) of the window between the two markers."""
+    import subprocess
+    cut = [sys.executable, os.path.join(chk.VERIF, "tools", "lackey_cut.py")] + (["--dump", dump] if dump else [])
+    # valgrind writes the trace to fd 9; route it into the cutter through a shell pipeline
+    cmd = f"valgrind --tool=lackey --trace-mem=yes --log-fd=9 {binp} {setname} 9>&1 >/dev/null 2>/dev/null | {' '.join(cut)}"
+    p = subprocess.run(["bash", "-c", cmd], input=draw, stdout=subprocess.PIPE, stderr=subprocess.PIPE, env=chk.ENV)
+    f = p.stdout.decode().split()
+    if len(f) != 3 or f[2] != "2" or int(f[0]) < 100000:
+        return None
+    return int(f[0]), f[1]
+
+
+def machine_draws(seed, n):
+    import random
+    rnd = random.Random(int(seed) * 7919 + 14)
+    base = bytes(rnd.getrandbits(8) for _ in range(64))
+    draws = [("baseline", base), ("all-00", bytes(64)), ("xi-fixed-rnd-zero", base[:32] + bytes(32))]
+    while len(draws) < n:
+        k = len(draws)
+        if k % 3 == 0:
+            b = bytearray(base)
+            b[rnd.randrange(64)] ^= 1 << rnd.randrange(8)
+            draws.append(("one-bit-from-baseline", bytes(b)))
+        else:
+            draws.append(("uniform", bytes(rnd.getrandbits(8) for _ in range(64))))
+    return draws[:n]
+
+
+def machine(chk, tier):
+    """Machine-level companion: the same entry point in an UNinstrumented build with the repository's own
+    release profile (opt-level "s", LTO; plus opt-level 3 in thorough), traced instruction by instruction
+    and access by access with valgrind --tool=lackey. Catches what the IR-level probes cannot: a branch-free
+    source idiom that the code generator turns back into a conditional branch."""
+    import concurrent.futures
+    t0 = time.time()
+    rc = 0
+    n = 4 if tier == "quick" else 12
+    draws = machine_draws(chk.SEED, n)
+    results = []
+    viols = []
+    for profile, flavour in MACHINE[tier]:
+        binp, _ = chk.cargo_build("ctm", profile)
+        if binp is None:
+            chk.die(f"C14: machine-level harness build failed ({profile})")
+        jobs = [(s, name, d) for s in SETS for name, d in draws]
+        with concurrent.futures.ThreadPoolExecutor(max_workers=12) as ex:
+            outs = list(ex.map(lambda j: lackey(chk, binp, j[0], j[2]), jobs))
+        for s in SETS:
+            base = None
+            for (js, name, d), o in zip(jobs, outs):
+                if js != s:
+                    continue
+                if o is None:
+                    chk.die(f"C14: valgrind/lackey run failed for set {s} ({flavour})")
+                if name == "baseline":
+                    base = (o, d)
+                    continue
+                results.append({"flavour": flavour, "set": s, "class": name, "events": o[0], "equal": o == base[0]})
+                if o != base[0]:
+                    viols.append({"flavour": flavour, "profile": profile, "set": s, "class": name, "baseline_draw": base[1].hex(), "draw": d.hex(),
+                                  "baseline_events": base[0][0], "events": o[0]})
+    known = json.load(open(chk.KNOWN)).get("known", []) if os.path.exists(chk.KNOWN) else []
+    os.makedirs(chk.replay_dir(), exist_ok=True)
+    new = 0
+    seen = set()
+    for v in viols:
+        key = f"machine-trace-diverges:{v['flavour']}:ml-dsa-{v['set']}"
+        if key in seen:
+            continue
+        seen.add(key)
+        k = [e for e in known if e.get("property") == "C14" and e.get("key") == key]
+        if k:
+            print(f"KNOWN-FINDING: property=C14 {k[0].get('what')} [{key}]")
+            continue
+        new += 1
+        rc = 1
+        path = os.path.join(chk.replay_dir(), f"C14-{v['flavour']}-{chk.SEED}-{v['set']}.json")
+        body = {"property": "C14", "invariant": "machine-trace-diverges", "finding_key": key, "flavour": v["flavour"], "profile": v["profile"],
+                "window": "machine-pipeline", "set": v["set"], "stream_class": v["class"], "baseline_draw": v["baseline_draw"], "draw": v["draw"],
+                "observed": f"instruction/memory-access history of keygen+sign (CT test mode) differs between two RNG outputs ({v['baseline_events']} vs {v['events']} events) in the {v['flavour']} build",
+                "expected": "identical instruction and memory-access history for every RNG output"}
+        json.dump(body, open(path, "w"), indent=1)
+        print(f"VIOLATION property=C14 replay={path}")
+        print(f"  invariant=machine-trace-diverges set=ml-dsa-{v['set']} flavour={v['flavour']} class={v['class']} events {v['baseline_events']} vs {v['events']}")
+    part = chk.part_path("C14", "machine")
+    sigs = sorted({f"machine|{r['flavour']}|ml-dsa-{r['set']}|{r['class']}" for r in results})
+    json.dump({"property_id": "C14", "tier": tier, "seed": int(chk.SEED), "level": "exploration",
+               "coverage": {"evaluations": len(results), "distinct_nontrivial": len(sigs), "signatures": sigs, "rule": "", "samples": results[:3],
+                            "flavour": "machine", "machine_level_runs": len(results) + 3 * len(MACHINE[tier]),
+                            "machine_level_events_per_run": {s: next((r["events"] for r in results if r["set"] == s), 0) for s in SETS},
+                            "machine_level_divergences": len(viols)},
+               "assumptions": ["machine level: valgrind --tool=lackey instruction and data-access trace of an uninstrumented build with the repository's release profile; compared between two markers; microarchitectural timing is still not observed"],
+               "wall_s": round(time.time() - t0, 2), "violations": new}, open(part, "w"))
+    return rc, part
+
+
+def machine_replay(chk, path, body):
+    profile = body.get("profile", "release")
+    binp, _ = chk.cargo_build("ctm", profile)
+    if binp is None:
+        chk.die("C14 replay: machine-level harness build failed")
+    d = os.path.join(chk.out_root(), "evidence", ".parts")
+    os.makedirs(d, exist_ok=True)
+    fa, fb = os.path.join(d, "lackey_a.txt"), os.path.join(d, "lackey_b.txt")
+    a = lackey(chk, binp, body["set"], bytes.fromhex(body["baseline_draw"]), dump=fa)
+    b = lackey(chk, binp, body["set"], bytes.fromhex(body["draw"]), dump=fb)
+    if a is None or b is None:
+        chk.die("C14 replay: valgrind/lackey run failed")
+    rc = 0
+    if a != b:
+        rc = 1
+        with open(fa) as x, open(fb) as y:
+            for i, (l1, l2) in enumerate(zip(x, y)):
+                if l1 != l2:
+                    print(f"VIOLATION property=C14 replay={path}")
+                    print(f"  invariant=machine-trace-diverges first divergence at event {i}: baseline `{l1.strip()}` vs `{l2.strip()}` ({a[0]} vs {b[0]} events)")
+                    break
+            else:
+                print(f"VIOLATION property=C14 replay={path}")
+                print(f"  invariant=machine-trace-diverges histories agree on their common prefix; lengths {a[0]} vs {b[0]}")
+    else:
+        print(f"REPLAY property=C14 file={path}: no divergence reproduced")
+    for f in (fa, fb):
+        if os.path.exists(f):
+            os.remove(f)
+    return rc
 
 
 def main(chk, tier):
@@ -41,12 +178,17 @@ def main(chk, tier):
         if rc not in (0, 1):
             chk.die(f"C14: fipsim-ct ({flavour}) exited {rc}")
         worst = max(worst, rc)
+    r, part = machine(chk, tier)
+    worst = max(worst, r)
+    parts.append(part)
     chk.merge_parts("C14", tier, parts, t0)
     return worst
 
 
 def replay(chk, path, body):
     fl = body.get("flavour", "traced-O3")
+    if fl.startswith("machine"):
+        return machine_replay(chk, path, body)
     profile = {"traced-O3": "release", "traced-Os": "opt-s", "traced-O1": "opt1"}.get(fl, "release")
     only = fl.split("-only-")[1] if "-only-" in fl else None
     binp, _ = build(chk, profile, only)
